@@ -38,8 +38,9 @@ func VT_C02_ValueDeltas() {
 		go func() {
 			defer wg.Done()
 			d := deltas[i]
-			rets[i], errs[i] = v.Set(&T2{}, InterceptBefore(func(old, value proto.Message) {
-				value.(*T2).DefaultInt64 = old.(*T2).GetDefaultInt64() + d
+			// the documented delta idiom: the written message carries the delta, the interceptor adds the stored value
+			rets[i], errs[i] = v.Set(&T2{DefaultInt64: d}, InterceptBefore(func(old, value proto.Message) {
+				value.(*T2).DefaultInt64 += old.(*T2).GetDefaultInt64()
 			}))
 		}()
 	}
@@ -154,8 +155,8 @@ func VT_C02_TwoUpserts() {
 		go func() {
 			defer wg.Done()
 			d := deltas[i]
-			_, errs[i] = c.Update(id, &T2{}, WithCreateIfAbsent(), InterceptBefore(func(old, value proto.Message) {
-				value.(*T2).DefaultInt64 = old.(*T2).GetDefaultInt64() + d
+			_, errs[i] = c.Update(id, &T2{DefaultInt64: d}, WithCreateIfAbsent(), InterceptBefore(func(old, value proto.Message) {
+				value.(*T2).DefaultInt64 += old.(*T2).GetDefaultInt64()
 			}))
 		}()
 	}
